@@ -205,6 +205,9 @@ def run(ctx: Ctx, rep: Report, tier: str):
     rep.rule("C04.R16", "what counts as a deletion (C02.R11): SyncEntry.is_deletion is true exactly when the peer EXISTS and this side is TRASHED / MISSING and changed - a "
              "one-sided tombstone is not a deletion to fold into a rename", 1)
     section(rep, lambda: _dh(ctx, rep, "C04.R16", "SyncEntry.is_deletion", "an echo tombstone counts as a deletion and is folded into an unrelated creation, or a real delete is not propagated"))
+    from rules.common import parent_search_climbs as _psc
+    rep.rule("C04.R17", "independent changes are applied parents first (C01.R9): the search for a changed ancestor climbs every level", 1)
+    section(rep, lambda: _psc(ctx, rep, "C04.R17"))
     from rules.decisions import decision_table, table_sites
     rep.rule("C04.DT", "decision table (rules/decisions.json) of delete handling, the non-empty-folder path, the vanished-object paths and revival: for every function and every action shape (an impure call with the parameters it passes, a store to an "
              "attribute or item, a delete, a returned constant, a yield, a raise) the set of states - over the function's guard atoms - in which the action is taken "
